@@ -242,7 +242,7 @@ class Schema:
                                      ['gt', ['neg', wrong], lit(gen.vlong(0))], ['call', S('lessThan'), wrong, other], ['call', S('isIpv4'), wrong], ['call', S('isInRange'), wrong, other],
                                      ['lt', ['call', S('offset'), wrong, other], other], ['gt', ['call', S('toDays'), wrong], lit(gen.vlong(0))], ['hasTag', wrong, lit(gen.vstr('k'))],
                                      ['eq', ['getTag', wrong, other], other], ['in', wrong, other], ['call', S('decimal'), wrong], ['call', S('ip'), lit(gen.vstr('not an ip'))],
-                                     ['call', S('lessThan'), self.texpr(T('decimal'), env, 0, guarded)], ['call', S('nosuch'), wrong], ['eq', ['mkset', wrong, other], ['mkset']],
+                                     ['call', S('lessThan'), self.texpr(T('decimal'), env, 0, guarded)], ['eq', ['mkset', wrong, other], ['mkset']],
                                      ['eq', ['mkrec', [S('a'), wrong], [S('a'), other]], ['mkrec']]])
             return ['if', self.texpr(want, env, d, guarded), self.texpr(want, env, d, guarded), self.texpr(want, env, d, guarded)]
         if want[0] == 'prim':
